@@ -339,6 +339,25 @@ def stdout_cases(ctx):
                               rep, signature="channel:collector-lines")
 
 
+def spawn_failure_cases(ctx):
+    """a child that cannot be started - for any errno, and however often the spawn is attempted - must leave an
+    error for its layer (used by the C02 and C07 checks)"""
+    import errno
+    for code in (errno.EAGAIN, errno.ENOMEM, errno.EMFILE, errno.ENFILE, errno.ENOENT, errno.EACCES, errno.EPERM,
+                 errno.ENOEXEC, errno.E2BIG):
+        for verbose in (0, 2):
+            real = real_parent(b"", spawn_error=code, verbose=verbose)
+            case = {"label": "spawn-fail", "stderr": [], "stderr_len": 0, "cut": None, "spawn_error": code,
+                    "real": real}
+            ctx.count(("spawn-fail", code, verbose), nontrivial=True, sample=None)
+            ctx.bump("spawn-fail")
+            if real["kind"] != "commError" or real["ran"] or real["fails"] or real["errs"] or not real["done"]:
+                ctx.violation("spawn failure (errno %s): the parent recorded kind=%s ran=%r done=%r (%s) instead of one "
+                              "error for the layer" % (errno.errorcode.get(code, code), real["kind"], real["ran"],
+                                                       real["done"], real["exc"]), case,
+                              signature="channel:spawn-fail:" + real["kind"])
+
+
 def probe_spoof(ctx):
     """D10: a noise line of three ints before the report is taken as the header."""
     data = b"1 0 0\n" + real_child_report(3, ["failing (m.T)"], [])
